@@ -132,7 +132,13 @@ def scan(source: str, callback: callable):
             state.start = state.end = -1
         else:
             if state.start == -1:
-                state.start = scanner.pos
+                # NB colons of a leading `::pseudo` are already consumed here
+                state.start = scanner.start
+                if state.property_start == -1 and state.property_delimiter != -1 and state.property_delimiter == state.start - 1:
+                    # Token is glued to a colon that nothing precedes: it is a
+                    # selector like `:root`, not a value of a nameless property
+                    state.start = state.property_delimiter
+                    state.property_delimiter = -1
 
             if scanner.eat(Chars.LeftRound):
                 state.expression += 1
